@@ -265,8 +265,12 @@ def oracle(ctx: Ctx, h, res, origin: str):
     prev = None
     max_live = 0
     for n, (op, st) in enumerate(zip(h["ops"], res["steps"])):
+        if st["out"] == "skipped":
+            continue
         ok = st["out"] == "ok"
         kind = op["op"]
+        if kind == "remove":
+            op = dict(op, ks=st.get("ks_used", op["ks"]))
         if ok:
             if kind == "put":
                 book[op["repo"]][op["k"]] = {"payload": op["payload"], "ident": (op["dt"], op["inst"], op["det"], op["pf"], op["run"]),
@@ -433,7 +437,11 @@ def c_case(h, res):
             idents[op["k"]] = (op["dt"], op["inst"], op["det"], op["pf"], op["run"])
     steps = []
     for op, st in zip(h["ops"], res["steps"]):
+        if st["out"] == "skipped":
+            continue
         k = op["op"]
+        if k == "remove":
+            op = dict(op, ks=st.get("ks_used", op["ks"]))
         side = "OnA" if op.get("repo") == "A" else "OnB"
         fmt = FMT_ID[(h["cfgA"] if op.get("repo") == "A" else h["cfgB"])["fmt"]]
         if k == "put":
@@ -577,9 +585,12 @@ def correspond(ctx: Ctx, name, pairs):
         rc, out = ctx.coq_eval(f"{name}_diag", HDR, f"diag_case {cases[i]}")
         m = re.search(r"=\s*(Some\s+(\d+)|None)", out)
         step = int(m.group(2)) if m and m.group(2) else None
-        det = {"history": h, "model_disagrees_at_step": step,
-               "op": h["ops"][step] if step is not None and step < len(h["ops"]) else None,
-               "impl": {k: res["steps"][step][k] for k in ("out", "A", "B")} if step is not None and step < len(res["steps"]) else None}
+        live = [(o, s) for o, s in zip(h["ops"], res["steps"]) if s["out"] != "skipped"]
+        det = {"model_disagrees_at_step": step,
+               "op": live[step][0] if step is not None and step < len(live) else None,
+               "impl_outcome": live[step][1].get("out") if step is not None and step < len(live) else None,
+               "impl_msg": live[step][1].get("msg") if step is not None and step < len(live) else None,
+               "history": h}
         ctx.disagreement(name, det, "model and implementation differ on get / getURI / registry identity / tag lookup / root listing")
 
 
